@@ -51,7 +51,8 @@ package compare
 //@ func Compare
 //@   safety[C15]
 //@   ensures range[C15]: result == -1 || result == 0 || result == 1
-//@   ensures order[C15,C01,C05]: (spec.numeric(a) ==> spec.exact(a)) && (spec.numeric(b) ==> spec.exact(b)) ==> result == spec.CompareSpec(a, b)
+//@   ensures local order[C15,C01,C05]: (spec.numeric(a) ==> spec.exact(a)) && (spec.numeric(b) ==> spec.exact(b)) ==> result == spec.CompareSpec(a, b)
+//@   ensures defn abstract[C15,C01,C05]: (spec.numeric(a) ==> spec.exact(a)) && (spec.numeric(b) ==> spec.exact(b)) ==> result == spec.Cmp(a, b)
 //@   modifies nothing
 //@
 //@ lemma reflexive[C15]: (forall ((a Any)) (=> (=> (spec!numeric a) (spec!exact a)) (= (spec!CompareSpec a a) #x0000000000000000)))
